@@ -238,6 +238,7 @@ class RoutingMonitor:
         self.entry_frames = []
         self.reduce_frames = []
         self.sce = {}
+        self.step_begin = {}
 
     # ---- entries
     def entries_begin(self, c, strat, side):
@@ -431,11 +432,22 @@ class RoutingMonitor:
     # ---- after every strategy step
     def hook(self, c, strat, hook, extra):
         self.strats[strat.symbol] = strat
+        if hook == 'before':
+            self.step_begin[strat._sim_route] = (c.seq, bool(strat.position.is_close))
         if hook != 'after':
             return
         reg = c.scratch['registry']
         sym = strat.symbol
         rec = self.sce.pop(strat._sim_route, None)
+        sb = self.step_begin.pop(strat._sim_route, None)
+        if rec is None and sb is not None and sb[1] and strat.position.is_close:
+            # "entry orders still resting at a strategy step without an open position are all cancelled exactly when
+            # should_cancel_entry() answers yes": the question has to be put whenever such orders exist - also for
+            # entries a hook submitted through the broker, which no declaration of the strategy object mirrors
+            old = [r for r in reg.active(sym) if r.order.status == ACTIVE and r.seq < sb[0] and not r.reduce_only and r.type != 'MARKET']
+            if old:
+                self.v(c, 'sce-not-asked', f'C10|resting-entry-at-a-step-without-position-but-should_cancel_entry-was-not-asked|type={old[0].type}',
+                       {'orders': [[r.type, r.side, r.qty, r.price] for r in old][:4]})
         if rec is not None:
             ans, entries, _ = rec
             if ans:
